@@ -164,6 +164,20 @@ def p_instances(fs):
                         return 'instances (%s): %s of %r is %r' % (how, hw, a0, c)
             except Exception as e:  # noqa
                 return 'instances (%s): sorting / copying archives raises %s' % (how, type(e).__name__)
+        if len(names) == 1 and len(ars) > 1:
+            # an archive that took part in a selection and whose version is assigned afterwards is ranked by its new version
+            try:
+                from debian_inspector.version import Version
+                mine = [package.DebArchive(name=a.name, version=a.version, architecture=a.architecture) for a in parsed]
+                package.find_latest_version(list(mine))
+                sorted(mine)
+                low = mine[0]
+                low.version = Version.from_string('9' * 40 + ':1')
+                r2 = package.find_latest_version(list(mine))
+                if r2 is not low:
+                    return 'instances (%s): after one archive was given an epoch of forty nines the selection is %s %s' % (how, r2.name, r2.version)
+            except Exception as e:  # noqa
+                return 'instances (%s): selecting again after a version was assigned raises %s' % (how, type(e).__name__)
         try:
             rs = package.find_latest_versions(list(ars))
         except Exception as e:  # noqa
@@ -211,6 +225,10 @@ def run(ctx):
     for e in SRC_EXT + META:
         for v in _ver.BOUNDARY:
             cases.append(('src', 'd/', 'p', v, None, e))
+    for n in (200, 230, 255, 300, 1000):
+        cases.append(('bin', 'pool/', 'p', '1.' + '7' * n + '-1', 'amd64', '.deb'))
+        cases.append(('src', '', 'lib' + 'x' * n, '2:1.0~rc1-1', None, '.dsc'))
+        cases.append(('src', 'd/', 'p', '1.' + '0' * n + 'a', None, '.orig.tar.gz'))
     ctx.exhaustive.append('every extension/suffix x every boundary version')
     fails = ctx.prop('prop:roundtrip', cases, p_roundtrip)
 
